@@ -1396,24 +1396,45 @@ func execUDPR(tchunks [][]byte, ttail string) string {
 	}
 	T := newConn("T", tchunks, ttail, false, -1, false, false)
 	T.free.Store(true)
+	// the application reads all the time (a burst larger than its receive buffer would otherwise be dropped by the kernel)
+	var mu sync.Mutex
+	var got [][]byte
+	var lastRx atomic.Int64
+	lastRx.Store(time.Now().UnixNano())
+	stop := make(chan struct{})
+	rdone := make(chan struct{})
+	go func() {
+		defer close(rdone)
+		buf := make([]byte, 70000)
+		for {
+			app.SetReadDeadline(time.Now().Add(20 * time.Millisecond))
+			n, _, err := app.ReadFromUDP(buf)
+			if err == nil {
+				mu.Lock()
+				got = append(got, append([]byte(nil), buf[:n]...))
+				mu.Unlock()
+				lastRx.Store(time.Now().UnixNano())
+				continue
+			}
+			select {
+			case <-stop:
+				return
+			default:
+			}
+		}
+	}()
 	var returned atomic.Bool
 	ch := runRelay(func() *iocopy.Result { return iocopy.UDP(relaySock, T, nil) }, &returned)
 	select {
 	case rr := <-ch:
+		// nothing more is sent after the relay has returned: wait until the socket has been quiet for a while
+		waitUntil(func() bool { return time.Now().UnixNano()-lastRx.Load() > int64(150*time.Millisecond) }, 3*time.Second)
+		close(stop)
+		<-rdone
 		if rr.panic != "" {
 			return rr.panic
 		}
 		r := rr.r
-		var got [][]byte
-		buf := make([]byte, 70000)
-		for {
-			app.SetReadDeadline(time.Now().Add(150 * time.Millisecond))
-			n, _, err := app.ReadFromUDP(buf)
-			if err != nil {
-				break
-			}
-			got = append(got, append([]byte(nil), buf[:n]...))
-		}
 		var sb strings.Builder
 		fmt.Fprintf(&sb, "ret 1 tun %s udp %d", vc.Hex(T.stream), len(got))
 		for _, d := range got {
@@ -1424,6 +1445,7 @@ func execUDPR(tchunks [][]byte, ttail string) string {
 		return sb.String()
 	case <-time.After(watchdog):
 		timeouts.Add(1)
+		close(stop)
 		relaySock.Close()
 		return "timeout"
 	}
